@@ -1207,6 +1207,10 @@ var c12SubnetSets = [][]c12Subnet{
 	// address), IPv4-mapped spellings, a single address, a prefix length with a leading zero
 	{{"10.1.0.77/24", 1, 443, prefix.Min}, {"::ffff:10.2.0.0/120", 1, 80, prefix.GetLong}, {"::ffff:10.3.0.9/124", 2, 22, prefix.OpenSSH2}, {"10.4.4.4/32", 1, 53, prefix.DNSOverTCP}},
 	{{"10.1.255.255/16", 3, 443, prefix.TLSClientHello}, {"0:0:0:0:0:FFFF:0a02:0001/120", 1, 80, prefix.HTTPResp}, {"10.3.0.129/25", 2, 22, prefix.Min}, {"2001:db8:5::1/128", 1, 443, prefix.Min}, {"10.5.0.200/024", 1, 8080, prefix.GetLong}},
+	// 32 host bits: every IPv4 address (one weighted entry per set: which subnet an address came from stays decidable)
+	{{"0.0.0.0/0", 2, 443, prefix.Min}, {"10.2.0.0/24", 0, 80, prefix.GetLong}},
+	{{"10.1.2.3/0", 1, 8443, prefix.OpenSSH2}},
+	{{"::ffff:10.1.2.3/96", 1, 8080, prefix.GetLong}, {"2001:db8:5::/64", 0, 443, prefix.Min}},
 }
 
 func c12PrefixAny(id *int32, rnd *bool, pre []byte, typed bool) *anypb.Any {
